@@ -52,6 +52,7 @@ Definition producer_eqb (p q : producer) : bool :=
   | PAccept k a, PAccept k' a' => Z.eqb k k' && (a =? a')
   | PTop n a, PTop n' a' => (n =? n') && (a =? a')
   | PSkip n a, PSkip n' a' => (n =? n') && (a =? a')
+  | PGuard v a, PGuard v' a' => Z.eqb v v' && (a =? a')
   | _, _ => false
   end.
 
